@@ -84,7 +84,32 @@ def cases(rng: random.Random, tier: str):
         sb = fresh_keys(sa, 10**4)
         k = rng.random()
         kind = "twin"
-        if k < 0.55:
+        if k < 0.14:
+            # the same origins at other positions: move an origin to the next position (in pre-order) that has none,
+            # with only origin-less positions in between — the sequence of non-empty origins stays the same
+            pos = [(p, x) for p, x in zoo.spec_positions(sb) if len(p) >= 1]
+            cands = []
+            for i, (p1, s1) in enumerate(pos):
+                if s1[4] is zoo.NO_ORIGIN:
+                    continue
+                for j in range(i + 1, len(pos)):
+                    if pos[j][1][4] is zoo.NO_ORIGIN:
+                        cands.append((i, j))
+                        if rng.random() < 0.5:
+                            break
+                    else:
+                        break
+            if cands:
+                i, j = rng.choice(cands)
+                (p1, s1), (p2, s2) = pos[i], pos[j]
+                # replace the deeper path first so that the other path stays valid
+                for pth, sp, org in sorted([(p1, s1, s2[4]), (p2, s2, s1[4])], key=lambda e: -len(e[0])):
+                    cur = sb
+                    for step in pth:
+                        cur = cur[3][step[0]] if step[1] is None else cur[3][step[0]][step[1]]
+                    sb = zoo.spec_replace(sb, pth, cur[:4] + (org,) + cur[5:])
+                kind = "origin-moved"
+        elif k < 0.55:
             sb, depth = change_origin_at(rng, sb)
             kind = f"origin@depth{min(depth, 4)}"
         elif k < 0.8:
@@ -164,6 +189,19 @@ def cases(rng: random.Random, tier: str):
             except Exception as e:  # noqa
                 yield Case("history", None, None, False, desc, oracle_fail=f"history scenario raised {type(e).__name__}: {e}",
                            sig="eq|history|raised")
+        # hash(node) is constant for the node's lifetime, also across a replace() rejected after registration
+        if rng.random() < 0.1:
+            x = zoo.PickyLate(v=rng.randint(0, 3), note=rng.choice(["", "n"]))
+            h0, bag = hash(x), {x: 1}
+            try:
+                x.replace(note="bad")
+            except RuntimeError:
+                pass
+            bad = hash(x) != h0 or x not in bag
+            yield Case("hash-after-rejected-replace", None, None, True, f"PickyLate(v={x.v}).replace(note='bad') raises",
+                       oracle_fail="hash(node) changed / node no longer found in a dict" if bad else None,
+                       sig="eq|hash|rejected-replace")
+            del x, bag
         # transitivity on a triple
         sc = fresh_keys(sa, 2 * 10**4)
         if rng.random() < 0.4:
